@@ -291,7 +291,10 @@ def run(ck):
         drift.append("documentation sentences not found (fallback numbers used): %s" % gen["doc_missing"])
     ck.note("doc_error_names", {k: v for k, v in gen["doc_errors"].items() if v})
 
+    import time
+    t0 = time.time()
     ck.proofs(["XmpProps.C05"], required=REQUIRED, drivers=["drv_c05"])
+    ck.note("t_proofs_s", round(time.time() - t0, 1))
     if not os.path.exists(vlib.lean_driver("drv_c05")):
         raise vlib.InfraError("driver drv_c05 was not built")
 
@@ -301,7 +304,7 @@ def run(ck):
     mods = pick_modules(ck, 10 if quick else 40)
 
     nshards = vlib.NCPU
-    per = 190 if quick else 4000
+    per = 600 if quick else 12500
     maxlen = 60
 
     def shard(i):
@@ -350,6 +353,7 @@ def run(ck):
             return seq_mods[s["id"]]
         return mods[:1] + mods[:3] if s["id"].startswith("w") else mods
 
+    ck.note("t_runs_s", round(time.time() - t0 - ck.notes["t_proofs_s"], 1))
     cells, classes = {}, {}
     stats = {"sequences": 0, "calls": 0, "calls_in_playing": 0, "crashes": 0, "spec_violations": 0, "correspondence_diffs": 0,
              "refused_state": 0, "refused_invalid": 0, "tolerated_cells": 0, "sequences_reaching_playing": 0, "walk_sequences": len(walk)}
